@@ -198,6 +198,8 @@ def obligations(tier, seed):
     out = [r for r in out if r.get("name") not in ("kernel:BatchResponseBuilder::new_with_limit", "kernel:BatchResponseBuilder::finish")]
     out += _builder_end_to_end(core, tier)
     out += _limit_provenance(core)
+    out += response_limit_sites(R.bodies("server"))
+    out += frame_reader_limits(R.bodies("server"))
     # "however the server is assembled": the configured value survives every builder step
     from .cfgframe import journey_obligations as _journey
     _extra = _journey(R.bodies("server"), "max_response_body_size", "max_response_body_size", scenario="cfg_journey", fixed={"field": "max_response_body_size"})
@@ -322,6 +324,108 @@ def _deep(ex, v, depth=0):
     if isinstance(v, _N):
         return (v.name or "") + " " + " ".join(_deep(ex, k, depth + 1) for kk, k in v.kids.items() if depth < 5 and not (isinstance(kk, tuple) and kk[0] == "name"))
     return str(to_term(v))
+
+
+def response_limit_sites(srv):
+    """Where the configured response limit goes while a connection is assembled (Server::start / tower service, ws::connect, http::call_with_service_builder):
+    every RpcService is built with exactly server_cfg.max_response_body_size - on the HTTP and on the WebSocket route alike - and the limit reaches nothing but the RPC
+    service and the connection's sink: in particular not the WebSocket frame reader, which decides which *requests* are accepted"""
+    from .. import prov as P, seqmodels as SQ
+    fi_resp, fi_req = R.field_index("ServerConfig", "max_response_body_size"), R.field_index("ServerConfig", "max_request_body_size")
+    res = []
+    allowed = r"RpcService::new$|MethodSink::new_with_limit$|MethodSink::new$"
+    for name, b in sorted(srv.items()):
+        if not P.syntactic_sites(b, r"RpcService::new$"):
+            continue
+        ex, ctx, paths = P.explore(srv, b, extra_models=list(SQ.TRY_MODELS) + list(M.TRACING_MODELS), max_paths=4000)
+        bad = [(p.kind, p.detail) for p in paths if p.kind in ("unsupported", "limit")]
+        viol, reach, leaks = [], [], set()
+        for p in paths:
+            evs = [e for e in p.events if e.kind == "call"]
+            news = [e for e in evs if re.search(r"RpcService::new$", e.callee)]
+            if not news:
+                continue
+            pc = p.cond()
+            reach.append(pc)
+            for e in news:
+                t = re.sub(r"\s+", " ", str(to_term(e.args[1])))
+                m = re.fullmatch(rf"ZeroExt\(32, (arg1(?:\.[\d*]+)*)\.{fi_resp}\)", t)
+                if not m:
+                    viol.append(pc)
+                    leaks.add(f"RpcService::new gets {t[:60]}")
+                    continue
+                cfg = re.escape(m.group(1))
+                # the same configuration's response limit must not reach anything else (the frame reader's limits are the request side)
+                for o in evs:
+                    if re.search(allowed, o.callee):
+                        continue
+                    for a in o.args:
+                        ta = re.sub(r"\s+", " ", str(to_term(a))) if not isinstance(a, (Node, Ptr)) else ""
+                        # the operand IS the limit (as it is, zero-extended or truncated) - terms that merely contain the finished RpcService do not count
+                        if ta and re.fullmatch(rf"(ZeroExt\(\d+, |Extract\(\d+, \d+, )?{cfg}\.{fi_resp}\)?", ta):
+                            viol.append(pc)
+                            leaks.add(f"{o.callee[:60]} gets the response limit")
+        nm = "prov:" + name.split("::<")[0].replace("server::", "")[:50] + ":response-limit"
+        nm = f"prov:{'TowerServiceNoHttp::call' if name.startswith('server::<impl') else name.split('::{')[0]}:response-limit"
+        reach_l = R.live_reach(viol, reach, bad)
+        if bad or not reach_l[0]:
+            res.append(R.Result(engine="mirsym", name=nm, kind="provenance", status="unsupported" if bad else "vacuous", detail=str(bad[:1])[:300], bodies=[b.name]))
+            continue
+        r = R.decide(nm, "provenance", z3.Or(*viol) if viol else z3.BoolVal(False), [z3.Or(*reach_l[0])], bodies=[b.name],
+                     desc="every RpcService of this route is built with zext(server_cfg.max_response_body_size), and that limit reaches nothing but the RPC service and the connection's sink "
+                          "(not the WebSocket frame reader: the response limit never decides which requests are accepted)",
+                     bounds="every path of the route; all values of both size limits", keydetail="response-limit-site",
+                     replay=dict(scenario="c08_limits_apart", vars={}, fixed={}, region=z3.BoolVal(True)))
+        if r["status"] == "violated":
+            r["detail"] = "; ".join(sorted(leaks))[:300]
+        res.append(r)
+    if len(res) < 3:
+        res.append(R.Result(engine="mirsym", name="prov:response-limit", kind="provenance", status="site-missing", detail=f"only {len(res)} RpcService::new routes found - spec needs update", bodies=[]))
+    return res
+
+
+def frame_reader_limits(srv):
+    """'The limit concerns responses only and never changes which requests are accepted': on both WebSocket routes every size setter of the soketto connection builder
+    (set_max_message_size, set_max_frame_size, ...) is given the *request* limit - never the response limit or anything else"""
+    from .. import prov as P, seqmodels as SQ
+    fi_req = R.field_index("ServerConfig", "max_request_body_size")
+    res = []
+    routes = [("ws::connect", r"^fn connect::\{closure#0\}::\{closure#0\}\(_1: Pin<&mut \{async block@server/src/transport/ws\.rs"),
+              ("TowerServiceNoHttp::call", r"^fn server::<impl at server/src/server\.rs:[\d: ]+>::call::\{closure#\d+\}\(_1: Pin<&mut \{async block@server/src/server\.rs")]
+    for label, rx in routes:
+        cands = [b for b in R.find_body(srv, rx, all_=True) if P.syntactic_sites(b, r"set_max_message_size")]
+        name = f"prov:{label}:frame-reader-limits"
+        if len(cands) != 1:
+            res.append(R.Result(engine="mirsym", name=name, kind="provenance", status="site-missing", detail=f"{len(cands)} candidate bodies - spec needs update", bodies=[]))
+            continue
+        b = cands[0]
+        cap = P.capture_index(b, ["server_cfg", "this__server_cfg"])
+        want = f"ZeroExt(32, arg1.0.*.{cap}.{fi_req})"
+        ex, ctx, paths = P.explore(srv, b, extra_models=list(SQ.TRY_MODELS) + list(M.TRACING_MODELS), max_paths=4000)
+        bad = [(p.kind, p.detail) for p in paths if p.kind in ("unsupported", "limit")]
+        viol, reach, seen = [], [], set()
+        for p in paths:
+            sets = [e for e in p.events if e.kind == "call" and re.search(r"::set_max_\w+$", e.callee)]
+            if not sets:
+                continue
+            reach.append(p.cond())
+            for e in sets:
+                t = re.sub(r"\s+", " ", str(to_term(e.args[1]))) if len(e.args) > 1 else "?"
+                if t != want:
+                    viol.append(p.cond())
+                    seen.add(f"{e.callee.rsplit('::', 1)[1]} gets {t[:60]}")
+        reach_l = R.live_reach(viol, reach, bad)
+        if bad or not reach_l[0]:
+            res.append(R.Result(engine="mirsym", name=name, kind="provenance", status="unsupported" if bad else "vacuous", detail=str(bad[:1])[:300], bodies=[b.name]))
+            continue
+        r = R.decide(name, "provenance", z3.Or(*viol) if viol else z3.BoolVal(False), [z3.Or(*reach_l[0])], bodies=[b.name],
+                     desc=f"{label}: every size limit set on the WebSocket frame reader is zext(server_cfg.max_request_body_size) - the response limit decides nothing about incoming messages",
+                     bounds="every path and resume point; all values of both limits", keydetail="frame-reader-limits",
+                     replay=dict(scenario="c08_limits_apart", vars={}, fixed={}, region=z3.BoolVal(True)))
+        if r["status"] == "violated":
+            r["detail"] = "; ".join(sorted(seen))[:300]
+        res.append(r)
+    return res
 
 
 def _limit_provenance(core):
